@@ -36,7 +36,7 @@ def perform(req: Dict[str, Any]):
     if req.get("functions"):
         from verifmon import hostfuncs
 
-        funcs = [hostfuncs.h1, hostfuncs.h2]
+        funcs = {"size": hostfuncs.size, "contains": hostfuncs.contains} if req["functions"] == "override" else [hostfuncs.h1, hostfuncs.h2]
     bindings = MV.cel_env(MV.dec_env(req.get("bindings", {})))
     return core.api_eval(req["runner"], req["src"], bindings, annotations=ann, package=req.get("package"), functions=funcs)
 
